@@ -87,9 +87,24 @@ bool GetBoolEnvironmentVariable(const char *env_var_name, bool &value)
   return true;
 }
 
+// Sets value to count * ticks_per_unit system clock ticks, or returns false if that does not fit.
+static bool ScaleTimeout(std::chrono::system_clock::duration::rep count,
+                         std::chrono::system_clock::duration::rep ticks_per_unit,
+                         std::chrono::system_clock::duration &value)
+{
+  if (count > (std::numeric_limits<std::chrono::system_clock::duration::rep>::max)() / ticks_per_unit)
+  {
+    return false;
+  }
+  value = std::chrono::system_clock::duration{count * ticks_per_unit};
+  return true;
+}
+
 static bool GetTimeoutFromString(const char *input, std::chrono::system_clock::duration &value)
 {
-  std::chrono::system_clock::duration::rep result = 0;
+  using rep = std::chrono::system_clock::duration::rep;
+
+  rep result = 0;
 
   // Skip spaces
   for (; *input && std::isspace(*input); ++input)
@@ -97,7 +112,13 @@ static bool GetTimeoutFromString(const char *input, std::chrono::system_clock::d
 
   for (; *input && std::isdigit(*input); ++input)
   {
-    result = result * 10 + (*input - '0');
+    const rep digit = *input - '0';
+    if (result > ((std::numeric_limits<rep>::max)() - digit) / 10)
+    {
+      // the number does not fit
+      return false;
+    }
+    result = result * 10 + digit;
   }
 
   if (result == 0)
@@ -110,57 +131,58 @@ static bool GetTimeoutFromString(const char *input, std::chrono::system_clock::d
 
   if (unit == "ns")
   {
-    value = std::chrono::duration_cast<std::chrono::system_clock::duration>(
-        std::chrono::nanoseconds{result});
-    return true;
+    return ScaleTimeout(result,
+                        std::chrono::duration_cast<std::chrono::system_clock::duration>(
+                            std::chrono::nanoseconds{1})
+                            .count(),
+                        value);
   }
 
   if (unit == "us")
   {
-    value = std::chrono::duration_cast<std::chrono::system_clock::duration>(
-        std::chrono::microseconds{result});
-    return true;
+    return ScaleTimeout(result,
+                        std::chrono::duration_cast<std::chrono::system_clock::duration>(
+                            std::chrono::microseconds{1})
+                            .count(),
+                        value);
   }
 
   if (unit == "ms")
   {
-    value = std::chrono::duration_cast<std::chrono::system_clock::duration>(
-        std::chrono::milliseconds{result});
-    return true;
+    return ScaleTimeout(result,
+                        std::chrono::duration_cast<std::chrono::system_clock::duration>(
+                            std::chrono::milliseconds{1})
+                            .count(),
+                        value);
   }
 
-  if (unit == "s")
+  if (unit == "s" || unit == "")
   {
-    value = std::chrono::duration_cast<std::chrono::system_clock::duration>(
-        std::chrono::seconds{result});
-    return true;
+    return ScaleTimeout(
+        result,
+        std::chrono::duration_cast<std::chrono::system_clock::duration>(std::chrono::seconds{1})
+            .count(),
+        value);
   }
 
   if (unit == "m")
   {
-    value = std::chrono::duration_cast<std::chrono::system_clock::duration>(
-        std::chrono::minutes{result});
-    return true;
+    return ScaleTimeout(
+        result,
+        std::chrono::duration_cast<std::chrono::system_clock::duration>(std::chrono::minutes{1})
+            .count(),
+        value);
   }
 
   if (unit == "h")
   {
-    value =
-        std::chrono::duration_cast<std::chrono::system_clock::duration>(std::chrono::hours{result});
-    return true;
+    return ScaleTimeout(
+        result,
+        std::chrono::duration_cast<std::chrono::system_clock::duration>(std::chrono::hours{1})
+            .count(),
+        value);
   }
 
-  if (unit == "")
-  {
-    // TODO: The spec says milliseconds, but opentelemetry-cpp implemented
-    // seconds by default. Fixing this is a breaking change.
-
-    value = std::chrono::duration_cast<std::chrono::system_clock::duration>(
-        std::chrono::seconds{result});
-    return true;
-  }
-
-  // Failed to parse the input string.
   return false;
 }
 
